@@ -16,12 +16,12 @@ from vf.common import MachineryError
 PROP = "C08"
 
 
-def validate(ctx, cases, tags, label, prop=PROP, keyfn=None, with_c=False, grouped=False):
+def validate(ctx, cases, tags, label, prop=PROP, keyfn=None, with_c=False, grouped=False, envs=None):
     """cases -> TLC verdict; returns number of violating (case, record) pairs"""
     import re as _re
 
     path = os.path.join(common.scratch("sel"), "cases_" + _re.sub(r"[^A-Za-z0-9]+", "_", label)[:60] + ".json")
-    envs = sg.envs(with_c, grouped)
+    envs = envs if envs is not None else sg.envs(with_c, grouped)
     tlc.write_json(path, {"recs": envs, "cases": cases})
     r = ctx.tlc("Trace_Selector", "Trace_Selector.cfg", f"{label}: {len(cases)} expressions x {len(envs)} records x 2 engines", env={"TRACE_FILE": path})
     os.remove(path)
@@ -143,6 +143,15 @@ def run(tier):
         ctx.case("reversed:" + c["src"])
     validate(ctx, rc, [dict(c.pop("tag"), order="reversed") for c in rc], "C08 grammar, records met in reverse order by a fresh interpreter",
              keyfn=lambda key, c, rid, eng: dict(key, record_has_field_m=(rid == 4), observed=c[eng][rid - 1]["k"] + (":" + c[eng][rid - 1].get("c", "") if c[eng][rid - 1]["k"] == "exc" else "")), with_c=True, grouped=True)
+    # record types with a field literally called `record` (what a wrapped record calls the record it wraps)
+    wrecs, wenvs = sg.wrapper_named_records()
+    wex = sg.wrapper_named_exprs()
+    wcases = [sg.make_case(e, wrecs, [{} for _ in wrecs]) for e, tag in wex]
+    for c in wcases:
+        c["py"] = [{"k": "skip", "v": False} for _ in wrecs]
+        ctx.case("holder:" + c["src"])
+    validate(ctx, wcases, [tag for e, tag in wex], "C08 helpers / comparisons on records with a field named `record`",
+             keyfn=lambda key, c, rid, eng: dict(key, observed=c[eng][rid - 1]["k"] + (":" + c[eng][rid - 1].get("c", "") if c[eng][rid - 1]["k"] == "exc" else "")), envs=wenvs)
     stream_half(ctx)
     keep = [i for i, (e, t) in enumerate(ex) if not any(x["k"] == "field" and x["f"] == "c" for x in sg.walk(e))]   # the stream files carry no command field
     streamfilter.run(ctx, [ex[i] for i in keep], [cases[i] for i in keep], [tags[i] for i in keep], PROP, tier == "thorough")
